@@ -180,7 +180,7 @@ def run(ctx):
     found = False
     try:
         if ctx.tier == "quick":
-            plan = [("witness", 1), ("small", 40), ("mid", 80)]
+            plan = [("witness", 1), ("small", 100), ("mid", 260), ("big", 1)]
         else:
             plan = [("witness", 1), ("small", 400), ("mid", 1200), ("big", 16)]
         reported = set()
